@@ -301,6 +301,24 @@ func vKRShard() (int, int) {
 	return shard, nshard
 }
 
+// broken: the ring itself violates the keyring invariant (duplicate, invalid length, primary
+// not first); like after a panic, nothing later could be attributed to a single call
+func (l *vKRLine) broken() bool {
+	seen := map[string]bool{}
+	for i, id := range l.Ring {
+		if seen[id] || (l.Lens[i] != 16 && l.Lens[i] != 24 && l.Lens[i] != 32) {
+			return true
+		}
+		seen[id] = true
+	}
+	if len(l.Ring) == 0 {
+		return l.Prim != ""
+	}
+	return l.Prim != l.Ring[0]
+}
+
+func (l *vKRLine) stop() bool { return l.Pan || l.altered() || l.broken() }
+
 // vKRPaths calls f for every path of the wanted kind that belongs to this shard; a shard
 // is a contiguous block of the path file (neighbouring TLC sequences share their prefix)
 func vKRPaths(t *testing.T, kind string, f func(idx int, p *vKRPath, w *bufio.Writer)) {
@@ -381,15 +399,16 @@ func (seen vKRSeen) record(w *bufio.Writer, hist string, l vKRLine) {
 }
 
 // runs one call sequence; stops after a failed NewKeyring (there is no ring), after a
-// panic (the object is in an unknown state) and after a call that altered a key list
-// handed out earlier (nothing later could be attributed to a single call)
+// panic (the object is in an unknown state), after a call that altered a key list handed
+// out earlier and after a call that left the ring itself broken (nothing later could be
+// attributed to a single call)
 func vKRSequence(t *testing.T, w *bufio.Writer, c int, init vKRInit, ops []vKROp, seen vKRSeen) {
 	r := &vKRRun{t: t}
 	l := r.apply("N", init.Primary, init.Keys)
 	l.Case, l.I = c, 1
 	hist := fmt.Sprintf("N%q/%q", init.Keys, init.Primary)
 	seen.record(w, hist, l)
-	if l.Pan || r.kr == nil || l.altered() {
+	if r.kr == nil || l.stop() {
 		return
 	}
 	for i, op := range ops {
@@ -397,7 +416,7 @@ func vKRSequence(t *testing.T, w *bufio.Writer, c int, init vKRInit, ops []vKROp
 		l.Case, l.I = c, i+2
 		hist += ";" + op.Op + op.Key
 		seen.record(w, hist, l)
-		if l.Pan || l.altered() {
+		if l.stop() {
 			return
 		}
 	}
@@ -544,7 +563,7 @@ func TestVerifKeyRotationReplay(t *testing.T) {
 			l.Case, l.I, l.Node = idx, i, st.Node
 			exchange(&l)
 			vKRWrite(w, l)
-			if l.Pan || r.kr == nil || l.altered() {
+			if r.kr == nil || l.stop() {
 				return
 			}
 		}
@@ -558,7 +577,7 @@ func TestVerifKeyRotationReplay(t *testing.T) {
 			l.Case, l.I, l.Node = idx, i, op.Node
 			exchange(&l)
 			vKRWrite(w, l)
-			if l.Pan || l.altered() {
+			if l.stop() {
 				return
 			}
 		}
